@@ -269,7 +269,8 @@ def rule_bounds(chk, prog, tier):
             for i in range(n):
                 p.f[('obj', i, 'offset')] = 0; p.f[('obj', i, 'type')] = None; p.f[('obj', i, 'iscur')] = 0
             p.f[('sub',)] = Ptr(p, ('obj', k))
-            it.call(fn, [Ptr(p, ()), Ptr(Obj('type', 'heap'), ()), 0])
+            ty = Obj('type', 'heap'); ty.f[('incomplete',)] = 0; ty.f[('kind',)] = ev(prog, 'TYPEINT')
+            it.call(fn, [Ptr(p, ()), Ptr(ty, ()), 0])
             sub = p.f[('sub',)]
             return sub.path, sorted(kk[1] for kk in p.f if kk[0] == 'obj' and isinstance(kk[1], int) and kk[1] >= n)
         runs = explore(prog, runner, M, max_runs=4)
@@ -586,13 +587,14 @@ def rule_objsize(chk, prog, tier):
     from props import c06
     fa = prog.require_func('funcalloc', 'qbe.c'); ue = prog.require_func('unaryexpr', 'expr.c'); fe = prog.require_func('funcexpr', 'qbe.c')
     CASES = [('int', (3,), ()), ('int', (0,), ()), ('char', (0,), ()), ('S12', (0,), ()), ('int', (2, 0), ()), ('int', (0, 2), ()), ('int', (2, 3), ()), ('long', (1,), ()),
-             ('int', (5,), (0,)), ('int', (5, 3), (0,)), ('int', (5, 0), (0,)), ('int', (5, 3), (1,)), ('int', (0, 3), (1,)), ('int', (5, 3), (0, 1))]
+             ('int', (5,), (0,)), ('int', (5, 3), (0,)), ('int', (5, 0), (0,)), ('int', (5, 3), (1,)), ('int', (0, 3), (1,)), ('int', (5, 3), (0, 1)),
+             ('int', (5,), 'star0'), ('int', (4, 5), 'star1')]
     def work(case):
         el, dims, vla = case
         def runner(it):
             it.MAX_STEPS = 10 ** 7
             w = World(prog, it=it, target='x86_64-sysv')
-            t = c06.array_type(prog, it, w, el, dims, vla)
+            t = c06.array_type(prog, it, w, el, dims, vla if not isinstance(vla, str) else (), star=(int(vla[4:]),) if isinstance(vla, str) else ())
             M = cmodel.backend_models(prog)
             it.models.update(M)
             it.models.update({'funcexpr': None, 'convert': lambda i2, a, e: a[3]})
@@ -644,6 +646,13 @@ def rule_objsize(chk, prog, tier):
     import par
     ES = {'int': 4, 'char': 1, 'S12': 12, 'long': 8}
     for (el, dims, vla), outcome, val in par.pmap(work, CASES):
+        if isinstance(vla, str):
+            # `[*]` has no size: an object or sizeof of such a type (only legal in a prototype) is diagnosed, it never reaches an assertion
+            key = 'objsize:%s%s' % (el, ''.join('[*]' if k == int(vla[4:]) else '[%d]' % n for k, n in enumerate(dims)))
+            if outcome == 'unsupported' and 'uninitialised' in str(val):
+                r.instance(False, key, 'qbe.c:calcvla', 'the back end reads a size value nothing has stored (indeterminate): %s' % val); continue
+            if outcome in ('unsupported', 'paths'): raise AnalysisBroken('%s: %s %s' % (key, outcome, val))
+            r.instance(outcome == 'terminal:error', key, 'qbe.c:calcvla', 'must be diagnosed; cproc: %s %s' % (outcome, str(val)[:120])); continue
         key = 'objsize:%s%s' % (el, ''.join('[n]' if k in vla else '[%d]' % n for k, n in enumerate(dims)))
         if outcome == 'unsupported' and 'uninitialised' in str(val):
             r.instance(False, key, 'qbe.c:funcalloc', 'the back end reads a size value nothing has stored (indeterminate): %s' % val); continue
